@@ -260,6 +260,34 @@ let dispatch (req : string list) (impl : string list) : string * string =
       else (match flow_output f stdin now with OOk t -> "OK " ^ field_of_str t | OErr -> "ERR" | OPanic -> "PANIC")
     in
     (reply, (match impl with "PANIC" :: _ -> "BAD:panic" | "REPARSE-FAILED" :: _ -> "BAD:emitted-zerv-does-not-parse" | _ -> "NA"))
+  | "RONRT" :: _ ->
+    let z = Zenc.zerv { Zenc.f = Array.of_list req; Zenc.i = 1 } in
+    if not (schema_validate z.z_schema) then ("INVALID", if impl = [ "INVALID" ] then "OK" else "BAD:schema-validation")
+    else ("OK " ^ field_of_str (zerv_ron z), (match impl with "OK" :: _ -> "OK" | "INVALID" :: _ -> "BAD:schema-validation" | _ -> "BAD:ron-roundtrip"))
+  | "RONV" :: _ ->
+    let z = Zenc.zerv { Zenc.f = Array.of_list req; Zenc.i = 1 } in
+    if schema_validate z.z_schema then ("OK", if impl = [ "OK" ] then "OK" else "BAD:valid-schema-rejected")
+    else ("REJECT", if impl = [ "REJECT" ] then "OK" else "BAD:invalid-schema-accepted")
+  | [ "RONP"; _ ] ->
+    (* oracle only: whatever document the implementation accepts decodes to an object whose schema satisfies the placement rules *)
+    (match impl with
+     | "OK" :: toks ->
+       let z = Zenc.zerv { Zenc.f = Array.of_list ("RONP" :: toks); Zenc.i = 1 } in
+       ("-", if schema_validate z.z_schema then "OK" else "BAD:accepted-object-violates-placement")
+     | _ -> ("-", "NA"))
+  | [ "OUT"; fmt; s ] ->
+    (* oracle only: is this string a well-formed version of the format, accepted unchanged by zerv's own parser? *)
+    let t = str_of_field s in
+    let v =
+      if List.exists (fun c -> not (is_ascii c)) t then "BAD:non-ascii"
+      else if fmt = "semver" then
+        (if not (rx_accepts semver_spec (sv_atoms t)) then "BAD:not-semver-grammar"
+         else match semver_parse t with Some v when str_eqb (semver_print v) t -> "OK" | _ -> "BAD:own-parser-rejects-or-changes")
+      else
+        (if not (rx_accepts pep440_spec (pep_atoms t)) then "BAD:not-pep440-grammar"
+         else match pep_parse t with Some v when str_eqb (pep_print v) t -> "OK" | _ -> "BAD:not-normal-form")
+    in
+    ("-", v)
   | [ "BRR"; _ ] -> failwith "unused"
   | [ "CNV"; inf; outf; prefix; s ] ->
     let fmt_of = function "semver" -> FSemver | "pep440" -> FPep440 | "auto" -> FAuto | o -> failwith ("fmt " ^ o) in
